@@ -94,6 +94,26 @@ def detectRef (init : Bytes) (ds : List (Option DetOut)) : DetState :=
   { res := ⟨attrs, if anyErr && conflict then [] else sch.1⟩, anyErr := anyErr,
     partialSeen := errs.any (·.isPartial), conflictSeen := conflict }
 
+/-! #### resource.New -/
+
+/-- the schema URL option that counts: the last one -/
+def schemaOf (opts : List Opt) : Bytes :=
+  opts.foldl (fun s o => match o with | .withSchemaURL x => x | _ => s) []
+
+/-- what an option contributes to the detector sequence, by the reference semantics -/
+def optDetRef (env : Env) : Opt → List (Option DetOut)
+  | .withSchemaURL _ => []
+  | .withDetectors ds => ds
+  | .withAttributes kvs => [some ⟨some ⟨contents kvs, []⟩, none⟩]
+  | .withFromEnv =>
+    [some ⟨some ⟨(envRef env.attrs env.svc).1, []⟩, if (envRef env.attrs env.svc).2 then some ⟨true, false⟩ else none⟩]
+
+/-- reference for `New`: every option's detectors, in option order (an option or detector given
+again counts again, at its later position), folded by the `Detect` reference from the last
+schema URL option -/
+def newRef (env : Env) (opts : List Opt) : DetState :=
+  detectRef (schemaOf opts) (opts.flatMap (optDetRef env))
+
 end Spec
 end C19
 end Otel
